@@ -70,7 +70,7 @@ def graph_case(draw, tier):
     edges = sorted(edges)
     order = draw(st.permutations(edges))
     flip = [draw(st.booleans()) for _ in order]
-    relabel = draw(st.sampled_from(["id", "id", "offset", "perm", "negative", "big"]))
+    relabel = draw(st.sampled_from(["id", "id", "offset", "perm", "negative", "big", "halves"]))
     labels = list(range(n))
     if relabel == "perm":
         labels = list(draw(st.permutations(labels)))
@@ -78,6 +78,9 @@ def graph_case(draw, tier):
         labels = [2 * i + 3 for i in range(n)]
     elif relabel == "big":
         labels = [10 ** 6 - 41 * x for x in draw(st.permutations(labels))]
+    elif relabel == "halves":
+        # vertex names are any sortable values: real-valued ids with a fractional part (0.5, 1.0, 1.5, ...)
+        labels = [0.5 * (x + 1) for x in draw(st.permutations(labels))]
     elif relabel == "negative":
         # vertex ids are arbitrary integers: negative ones (-1 in particular) are legal labels
         k = draw(st.integers(1, 3))
